@@ -31,6 +31,7 @@ inductive MOp (α : Type) where
   | setParameter (name : String) (v : α)
   | setSpecies (vals : List (String × α))
   | createMassAction (reactants products : List String) (k : KArg α)
+  | createDelayed (reactants products : List String) (k : KArg α) (dProducts : List String) (delayParam : String)
   | createAdditiveRule (dest : String) (srcs : List String)
   | initialize
 
@@ -103,6 +104,19 @@ def MState.createMassAction (m : MState α) (reactants products : List String) (
 where
   addAllSpecies (m : MState α) (ss : List String) : MState α := ss.foldl MState.addSpecies m
 
+/-- `create_reaction(reactants, products, 'massaction', {'k': …}, delay_type='fixed', delay_products=dp,
+delay_param_dict={'delay': <name>})`: the delayed products are added as species after the propensity's parameters
+were checked, and the delay's parameter after the propensity's. -/
+def MState.createDelayed (m : MState α) (reactants products : List String) (k : KArg α) (dProducts : List String)
+    (delayParam : String) : Except String (MState α) := do
+  let m := MState.createMassAction.addAllSpecies (MState.createMassAction.addAllSpecies { m with initialized := false } reactants) products
+  let (m, kname) ← m.resolveK reactants k
+  let m := MState.createMassAction.addAllSpecies m dProducts
+  let m ← m.addParam kname
+  let m ← m.addParam delayParam
+  pure { m with rxns := m.rxns ++ [({ reactants := reactants, products := products, dProducts := dProducts }, kname)],
+                initialized := false }
+
 /-- `create_rule('additive', {'equation': 'dest = s1 + s2 + …'})`: `initialized = False` first; no species is added
 (the rule object's `initialize` raises `KeyError` for a name that is not a species); the rule is appended. -/
 def MState.createAdditiveRule (m : MState α) (dest : String) (srcs : List String) : Except String (MState α) :=
@@ -126,6 +140,7 @@ def MState.step (m : MState α) : MOp α → Except String (MState α)
   | .setParameter p v => m.setParameter p v
   | .setSpecies vals => .ok (m.setSpecies vals)
   | .createMassAction r p k => m.createMassAction r p k
+  | .createDelayed r p k dp tau => m.createDelayed r p k dp tau
   | .createAdditiveRule d ss => m.createAdditiveRule d ss
   | .initialize => m.initialize
 
